@@ -269,6 +269,9 @@ class Partitioned(struct.PyTreeNode, AxisMetadata[A]):
   def add_axis(self, index: int, params: dict[Any, Any]) -> 'Partitioned[A]':
     axis_name = self._get_partition_name(params)
     names = list(self.names)
+    if index < 0:
+      # a negative index refers to the position in the stacked array.
+      index += len(names) + 1
     while len(names) < index:
       names.append(None)  # type: ignore
     names.insert(index, axis_name)  # type: ignore
